@@ -19,7 +19,7 @@ for d in seeded/*/; do
   else
     log="/tmp/recheck_$id.log"
     env VERIF_REPO_SRC="$wt/src" VERIF_EVIDENCE_DIR="/tmp/recheck_ev_$id" VERIF_REPLAY_DIR="/tmp/recheck_rp_$id" \
-      VERIF_WORKERS=$workers ${budget:+VERIF_BUDGET_S=$budget} ./check "$prop" quick > "$log" 2>/dev/null
+      VERIF_SHRINK_S=3 VERIF_WORKERS=$workers ${budget:+VERIF_BUDGET_S=$budget} ./check "$prop" quick > "$log" 2>/dev/null
     ex=$?
     first=$(grep -m1 "^violation" "$log" | cut -c1-150)
     if [ "$ex" = "1" ]; then verdict=CAUGHT; else verdict="MISSED(exit=$ex)"; fi
